@@ -767,6 +767,12 @@ func (m *Model) judgeApprove(j *Judgement, o *Op, rec *nat.CallRecord, obs *Obs,
 				j.Findings = append(j.Findings, Finding{"C32", "effect-before-threshold@" + o.Kind, "action took effect below the threshold: " + desc})
 			}
 		}
+		if rs.Pending == 0 && spec.family == "side_chain" {
+			// C35: the registry changes only through a pending owner request followed by approval
+			what := map[string]string{"register": "registration", "update": "update", "quit": "removal"}[spec.action]
+			j.Findings = append(j.Findings, Finding{"C35", "side_chain:" + what + "-without-pending-request",
+				fmt.Sprintf("%s of chain %d took effect although no %s request was pending (consumed earlier: %v): %s", what, o.ID, spec.action, rs.Consumed, desc)})
+		}
 		m.judgeRegistry(j, o, rs)
 		m.judgeContent(j, o, rs, setA, setB)
 		m.ES = s1
